@@ -10,3 +10,4 @@ import VibeProof.Props.C28
 #print axioms VibeProof.C28.C28_count_field
 #print axioms VibeProof.C28.C28_count_overflow_counterexample
 #print axioms VibeProof.C28.C28_type_bytes_match_source
+#print axioms VibeProof.C28.C28_notice_length_sum
